@@ -17,8 +17,19 @@ def generate(rng, n, tier, stats):
         nd = rng.choice([1, 2, 3, 3, 4, 4, 4])
         a = rand_array(rng, stats=stats, ndim=nd, minlen=1, maxlen=3, attrs=rng.random() < 0.4, dtype=rng.choice(['f', 'i']))
         dims = a['dims']
-        fam = rng.choice(['flatten', 'flatten', 'roundtrip', 'reshape', 'reshape', 'reduce_vs_flatten', 'two_groups'])
+        fam = rng.choice(['flatten', 'flatten', 'roundtrip', 'reshape', 'reshape', 'reduce_vs_flatten', 'two_groups', 'collision'])
         stats['family'][fam] += 1
+        if fam == 'collision':
+            # the grouped axis (or a member put back by unflatten) would take the name another dimension has:
+            # the constructor refuses (ValueError), it never returns an array with a repeated dimension name
+            if nd < 3 or rng.random() < 0.5: continue
+            perm = list(range(nd)); rng.shuffle(perm)
+            g = [dims[i] for i in perm[:2]]; other = dims[perm[2]]
+            if rng.random() < 0.5:
+                cases.append({'ins': [a], 'ops': [['rename_axis', other, ','.join(g)], ['flatten', g, 'tuple', None]], 'tag': 'collision'})
+            else:
+                cases.append({'ins': [a], 'ops': [['flatten', g, 'tuple', None], ['rename_axis', other, rng.choice(g)], ['unflatten']], 'tag': 'collision'})
+            continue
         if fam == 'two_groups':
             # two grouped axes alive at once, then unflatten() / reshape back to plain dimensions
             if nd < 3: continue
@@ -80,6 +91,9 @@ def oracle(case, res):
     obs = arr_json(mk_array(a))
     adims = a['dims']; ac = cells(obs)
     o = opsl[0]
+    if case.get('tag') == 'collision':
+        if res[0] == 'err': return None if res[1] == 'ValueError' else 'name collision raised %s' % res[1]
+        return 'an array with a repeated dimension name was returned: %r' % (obs_dims(res[1]['v']),)
     if o[0] == 'flatten':
         _, refs, form, insert = o
         idx = [adims.index(r) if isinstance(r, str) else r for r in refs] if refs else list(range(len(adims)))
